@@ -126,7 +126,15 @@ func (packet *Packet) GetBindParameters(paramNum int) ([]base.BoundValue, error)
 		// https://dev.mysql.com/doc/dev/mysql-server/latest/page_protocol_binary_resultset.html#sect_protocol_binary_resultset_row
 		// 7 + num-params offset from docs
 		// For COM_STMT_EXECUTE this offset is 0
+		// the NULL bitmap alone takes one bit per parameter
+		if paramNum > 8*len(packet.data) {
+			return nil, ErrInvalidResponseLength
+		}
 		nullBitMapLength := (paramNum + 7) / 8
+		// the NULL bitmap is followed by the new_params_bind_flag byte
+		if len(packet.data) < pos+nullBitMapLength+1 {
+			return nil, ErrInvalidResponseLength
+		}
 		if nullBitMapLength > 0 {
 			nullBitmap = packet.data[pos : pos+nullBitMapLength]
 		}
@@ -142,6 +150,10 @@ func (packet *Packet) GetBindParameters(paramNum int) ([]base.BoundValue, error)
 	}
 	pos += +1
 
+	// two bytes of type information per parameter
+	if len(packet.data) < pos+2*paramNum {
+		return nil, ErrInvalidResponseLength
+	}
 	//here we need to gather all provided param types
 	paramTypes := make([]byte, paramNum)
 	for i := 0; i < paramNum; i++ {
@@ -163,6 +175,9 @@ func (packet *Packet) GetBindParameters(paramNum int) ([]base.BoundValue, error)
 		}
 		values[i] = boundValue
 		pos += n
+		if pos > len(packet.data) {
+			return nil, ErrInvalidResponseLength
+		}
 	}
 
 	return values, nil
